@@ -7,7 +7,7 @@ use crate::common::{Id, Node, RoutingTable};
 pub use crate::common::messages::*;
 pub use crate::common::SignedAnnounce;
 pub use crate::actor::config::Config;
-pub use crate::actor::{Actor, Info, ResponseSender, VerifSnapshot};
+pub use crate::actor::{Actor, Info, ResponseSender, VerifCalls, VerifSnapshot, VerifTick};
 pub use crate::core::iterative_query::GetRequestSpecific;
 pub use crate::core::server::{Server, VerifServerDump};
 pub use crate::core::{PutError, Response};
